@@ -751,8 +751,9 @@ class SwingRecorder:
             real_fit = QuantileRegressionSolver.fit
 
             def fit(solver, x, y, *a, **k):
-                if "weights" in k and k["weights"] is not None and not seen:
-                    seen.append(np.asarray(k["weights"], dtype=float).copy())
+                # every attempt of the median regression (first solve and retry): the weights it was given, or None
+                w = k.get("weights")
+                seen.append(None if w is None else np.asarray(w, dtype=float).copy())
                 return real_fit(solver, x, y, *a, **k)
 
             QuantileRegressionSolver.fit = fit
@@ -764,8 +765,10 @@ class SwingRecorder:
             wprop = True
             if seen:
                 want = np.asarray(reporting_units[f"baseline_{estimand}"], dtype=float) + 1.0
-                got = seen[0]
-                wprop = bool(len(got) == len(want) and np.allclose(got / got.sum(), want / want.sum(), rtol=1e-9, atol=0.0))
+                wprop = all(
+                    got is not None and len(got) == len(want) and bool(np.allclose(got / got.sum(), want / want.sum(), rtol=1e-9, atol=0.0))
+                    for got in seen
+                )
             rec.calls.append(
                 {
                     "wprop": wprop,
@@ -801,8 +804,37 @@ def _hamletise(pre, cur):
     return pre, cur
 
 
-def _swing_client_run(pre, cur, seed, estimator):
-    with SwingRecorder() as rec:
+class _FirstAttemptFails:
+    """Every first attempt of a quantile regression (the call with normalised weights) fails the way the solver does
+    on badly scaled weights; the model's retry (normalize_weights=False) goes through to the real solver."""
+
+    def __init__(self, kind):
+        self.kind = kind
+
+    def __enter__(self):
+        import cvxpy
+        from elexsolver.QuantileRegressionSolver import QuantileRegressionSolver
+
+        self.cls = QuantileRegressionSolver
+        self.orig = QuantileRegressionSolver.fit
+        orig, kind = self.orig, self.kind
+
+        def fit(solver, *a, **kw):
+            if kw.get("normalize_weights", True):
+                raise cvxpy.error.SolverError("injected") if kind == "SolverError" else UserWarning("Solution may be inaccurate")
+            return orig(solver, *a, **kw)
+
+        QuantileRegressionSolver.fit = fit
+        return self
+
+    def __exit__(self, *a):
+        self.cls.fit = self.orig
+
+
+def _swing_client_run(pre, cur, seed, estimator, fault=None):
+    import contextlib
+
+    with (_FirstAttemptFails(fault) if fault else contextlib.nullcontext()), SwingRecorder() as rec:
         synth.run_client(
             pre,
             cur,
@@ -825,6 +857,9 @@ def job_swing_run(arg):
     try:
         calls = _swing_client_run(pre, cur, seed, estimator)
         hamlet_calls = _swing_client_run(*_hamletise(pre.copy(), cur.copy()), seed, estimator) if seed % 4 == 0 else []
+        # every third election is also run with every first solve failing: the retried fit must give the same
+        # baseline-weighted median (seeded change C05_F: the retry lost the weights)
+        fault_calls = _swing_client_run(pre, cur, seed, estimator, fault=("SolverError", "UserWarning")[seed % 2]) if seed % 3 == 1 else []
     except Exception as e:  # noqa: BLE001
         return [{"kind": "raised", "exc": type(e).__name__, "msg": str(e)[:300], "args": list(arg), "tb": traceback.format_exc()[-1200:]}]
     out = []
@@ -841,6 +876,12 @@ def job_swing_run(arg):
         out.append(rec)
         if k < len(hamlet_calls):
             out.append(dict(rec, wprop=hamlet_calls[k]["wprop"], hamlets=True))
+        if k < len(fault_calls):
+            f = fault_calls[k]
+            if [tuple(x) for x in f["rep"]] == [tuple(x) for x in c["rep"]] and [tuple(x) for x in f["non"]] == [tuple(x) for x in c["non"]]:
+                out.append(dict(rec, pred=f["pred"], wprop=f["wprop"], faulted=True))
+            else:
+                out.append({"kind": "raised", "exc": "FaultedRunDiffers", "msg": "the faulted run saw other units than the ordinary run", "args": list(arg), "tb": ""})
     return out
 
 
